@@ -452,6 +452,39 @@ func genRefinement(ld *Loader, specs *Specs, rf *Refinement) *FuncVC {
 	for _, o := range e.obls {
 		o.Props = props
 	}
+	// interface-level ghost variables that the interface method may assign but the implementation's contract does not
+	// mention are *defined* by the coupling relation in the post-state (data refinement): give them fresh values,
+	// require that some value satisfies the coupling, then assume it.
+	implAssigns := map[string]bool{}
+	for _, a := range mct.AssignsSrc {
+		implAssigns[strings.TrimSpace(a)] = true
+	}
+	var defined []string
+	for _, a := range ict.AssignsSrc {
+		a = strings.TrimSpace(a)
+		if gv, ok := specs.Ghosts[a]; ok && !implAssigns[a] {
+			defined = append(defined, gv.Name)
+		}
+	}
+	if rf.Coupling != nil && len(defined) > 0 {
+		// existence: exists values of the defined ghosts such that coupling(post)
+		probe := tr.st.clone()
+		var binders []string
+		for i, name := range defined {
+			sort := comps(ghostType(specs.Ghosts[name]))[0].Sort
+			bv := Term{fmt.Sprintf("g!q%d_%s", i, name), sort}
+			probe.w["G$"+name] = bv
+			binders = append(binders, fmt.Sprintf("(%s %s)", bv.S, sort))
+		}
+		body := tr.e.quietEval(func() Term { return mkEnv(probe).evalBool(rf.Coupling) })
+		e.oblige(&Obl{Name: label + "#coupling-definable", Kind: "refinement", Props: props, Cond: tTrue,
+			Goal: Term{fmt.Sprintf("(exists (%s) %s)", strings.Join(binders, " "), body.S), SBool}, Pos: rf.Where, Fn: label})
+		for _, name := range defined {
+			sort := comps(ghostType(specs.Ghosts[name]))[0].Sort
+			tr.st.set("G$"+name, e.fresh("def$"+name, sort))
+		}
+		e.assume(tTrue, mkEnv(tr.st).evalBool(rf.Coupling))
+	}
 	post := tr.st
 	for _, en := range ict.Ensures {
 		env := mkEnv(post)
@@ -459,7 +492,7 @@ func genRefinement(ld *Loader, specs *Specs, rf *Refinement) *FuncVC {
 		t, extra := tr.goalClause(env, en.AST)
 		e.oblige(&Obl{Name: fmt.Sprintf("%s#ensures:%s", label, en.Label), Kind: "refinement", Props: unionProps(en.Props, props), Cond: tTrue, Goal: t, Pos: en.Where, Fn: label, Extra: extra})
 	}
-	if rf.Coupling != nil {
+	if rf.Coupling != nil && len(defined) == 0 {
 		e.oblige(&Obl{Name: label + "#coupling-kept", Kind: "refinement", Props: props, Cond: tTrue, Goal: mkEnv(post).evalBool(rf.Coupling), Pos: rf.Where, Fn: label})
 	}
 	// frame: everything the implementation may assign is covered by the interface's assigns clause
